@@ -26,7 +26,7 @@ def generate(tier, seed):
                     steps += [o, "?ga:p", "?ga:g", "?rv"] + observe_steps(dom)[2:]
                 cases.append(case("eng", sp, adapter_M(initial_lines(random.Random(len(cases)), dom, True)), "-", steps))
                 dist["sync_histories"] += 1
-        for _ in range(40 if tier == "quick" else 800):
+        for _ in range(40 if tier == "quick" else 5000):
             n = rnd.choice([5, 20, 60])
             steps = []
             for _ in range(n):
@@ -54,7 +54,7 @@ def generate(tier, seed):
     K = kinds(("AO",))
     d = K["rbac_res"]
     sp = spec_of(d)
-    for _ in range(150 if tier == "quick" else 3000):
+    for _ in range(150 if tier == "quick" else 20000):
         rules = []
         for _ in range(rnd.randint(0, 5)):
             rules.append([rnd.choice(SAFE), rnd.choice(SAFE), rnd.choice(SAFE)])
